@@ -210,6 +210,9 @@ class Engine:
         full = '%s/%s' % (self.qual, name)
         n = sum(1 for o in self.obligations if o.meta.get('base') == full)
         path = list(st.path)
+        cts = list(getattr(self, '_const_terms', {}).values())
+        if len(cts) > 1:
+            path.append(z3.Distinct(*cts))
         if getattr(st, 'qfacts', None) and hasattr(self, 'instantiate'):
             path += self.instantiate(st, goal)
         ob = Ob(full if n == 0 else '%s~path%d' % (full, n + 1), path, goal, function=self.qual, kind=kind, meta=dict(meta or {}, base=full))
@@ -231,7 +234,11 @@ class Engine:
         if isinstance(v, BoolV):
             return self.uf('of_bool', B, V)(v.t)
         if isinstance(v, Const):
-            return z3.Const('const<%r>' % (v.v,), V)
+            t = z3.Const('const<%r>' % (v.v,), V)
+            if isinstance(v.v, str) or v.v is None:
+                self._const_terms = getattr(self, '_const_terms', {})
+                self._const_terms[repr(v.v)] = t         # different literals are different values (asserted at every obligation)
+            return t
         if isinstance(v, Tup):
             if not v.items:
                 return z3.Const('empty<%s>' % v.kind, V)
@@ -531,6 +538,8 @@ class Engine:
             st.env[expr.id] = new
         elif isinstance(expr, ast.Attribute):
             o = self.ev(st, expr.value)
+            if isinstance(o, Bound):
+                o = self.bound_as_value(st, o)
             if isinstance(o, Obj):
                 st.fields[(str(o.t), expr.attr)] = new
             else:
@@ -1111,8 +1120,8 @@ class Engine:
                 t = z3.BoolVal(l.v == r.v)
             elif isinstance(l, BoolV) and isinstance(r, BoolV):
                 t = l.t == r.t
-            elif isinstance(l, Const) and isinstance(l.v, str) and isinstance(r, Obj) or \
-                    isinstance(r, Const) and isinstance(r.v, str) and isinstance(l, Obj):
+            elif isinstance(l, Const) and isinstance(l.v, str) and isinstance(r, (Obj, Bound)) or \
+                    isinstance(r, Const) and isinstance(r.v, str) and isinstance(l, (Obj, Bound)):
                 t = self.to_V(l) == self.to_V(r)
             elif isinstance(l, Const) != isinstance(r, Const) and (isinstance(l, Num) or isinstance(r, Num)):
                 t = FALSE            # number == None / string
